@@ -82,6 +82,11 @@ LEVELS = {
         "note": "trusted: ideal signature scheme; YAML emitter/scanner; composition with C09's fixpoint",
         "technique": "Coq proof: corollary of payload canonicity + verify-completeness; model-executed round trip in the correspondence",
     },
+    "C19": {
+        "text": "Tie theorems decided in Coq over effect tables regenerated from the current source on every run: no function of the five packages assigns to, deletes from or takes the address of a package-level variable (no hidden shared state), and none of 39 observer methods (lookups, iteration, equality helpers, every Marshal*, FullSource, validation, SignedFields/ValuesForFields, Transform) writes through its receiver directly or via a writing method on it, while the mutators are seen by the same table. In the Coq model observers are pure functions of their argument, and SignSteps' frame is a theorem (C06). Concurrency is exercised by race-detector rounds with result equality and before/after snapshots.",
+        "note": "trusted: syntactic effect translator, Go race detector; scheduler behaviour is not provable in this technique (partial)",
+        "technique": "Coq-checked Tie over source-generated effect tables (finite computation) + race-detector correspondence rounds",
+    },
 }
 
 REASONS_PENDING = "check not built yet in this revision (work in progress; see DESIGN.md §10 build order)"
